@@ -60,12 +60,12 @@ void h_escape_string(void) {
  * k == n-1, the string arm lemma and the bounded end-to-end run. */
 void l_string_step(void) {
   size_t in_n, in_k, in_cap, in_vk; unsigned in_mode; uint8_t in_vval;
-  __CPROVER_assume(in_n <= LEMMA_MAX && in_k < in_n && in_mode <= 2 && in_cap <= 8 * LEMMA_MAX);
+  __CPROVER_assume(in_n <= LEMMA_MAX && in_k < in_n && in_mode <= 2 && in_cap <= 16 * LEMMA_MAX);
   verif_exc = 0;
   vstr* s = malloc(sizeof(vstr)); __CPROVER_assume(s != 0);
   s->data = malloc(in_n); __CPROVER_assume(s->data != 0); s->size = in_n; s->cap = in_n;
   vstr* ret = malloc(sizeof(vstr)); __CPROVER_assume(ret != 0);
-  __CPROVER_assume(in_cap >= 6 * in_n + 1);
+  __CPROVER_assume(in_cap >= 8 * in_n + 1);
   ret->data = malloc(in_cap); __CPROVER_assume(ret->data != 0); ret->size = 1; ret->cap = in_cap;    /* the opening quote is there */
   g_ek = in_k; g_base = 1;
   char sk = s->data[in_k];
@@ -87,7 +87,7 @@ void l_string_step(void) {
  * the closing quote and the last byte of the text. */
 void l_string_arm(void) {
   size_t in_n, in_k, in_cap; uint32_t in_options;
-  __CPROVER_assume(in_n <= LEMMA_MAX && in_cap <= 8 * LEMMA_MAX && in_cap >= 6 * in_n + 2);
+  __CPROVER_assume(in_n <= LEMMA_MAX && in_cap <= 16 * LEMMA_MAX && in_cap >= 8 * in_n + 2);
   verif_exc = 0;
   JSONV* v = malloc(sizeof(JSONV)); __CPROVER_assume(v != 0);
   v->kind = JK_string;
